@@ -238,3 +238,14 @@ func (c C) Table(key string, fn *ssa.Function, rows []ir.Row, want func(ir.Row) 
 	}
 	c.R.Check("K6", key, c.P.Pos(fn.Pos()), len(bad) == 0, d)
 }
+
+// GuardsAny records one K1 obligation: on every path to `in` some branch edge
+// establishes one of the patterns (disjunctive guard).
+func (c C) GuardsAny(fnName, construct, label string, in ssa.Instruction, pats ...string) bool {
+	ok, tr := ir.EveryPathHas(in, pats...)
+	d := "every path must establish one of: " + strings.Join(pats, "  |  ")
+	if !ok {
+		d += fmt.Sprintf("; a path avoids all of them: blocks %v", tr)
+	}
+	return c.R.Check("K1", fnName+"/"+construct+"/"+label, c.P.InstrPos(in), ok, d)
+}
